@@ -11,7 +11,15 @@ package formatter
 //@     ? s[i : i + 2 + indexOf(s[i+2:], "}}") + 2] + escTextFrom(s, i + 2 + indexOf(s[i+2:], "}}") + 2)
 //@     : (s[i] == '&' ? "&amp;" : (s[i] == '<' ? "&lt;" : (s[i] == '>' ? "&gt;" : s[i:i+1]))) + escTextFrom(s, i + 1)) }
 
+//@ spec func mustacheAt(s string, i int) bool { i + 1 < len(s) && s[i] == '{' && s[i+1] == '{' && indexOf(s[i+2:], "}}") != 0 - 1 }
+//@ spec func mustacheEnd(s string, i int) int { i + 2 + indexOf(s[i+2:], "}}") + 2 }
+//@ spec func escByte(s string, i int) string { s[i] == '&' ? "&amp;" : (s[i] == '<' ? "&lt;" : (s[i] == '>' ? "&gt;" : s[i:i+1])) }
+//@ lemma escStep(s string, i int)
+//@   requires 0 <= i && i < len(s)
+//@   ensures C19.text.unfold: escTextFrom(s, i) == (mustacheAt(s, i) ? s[i:mustacheEnd(s, i)] + escTextFrom(s, mustacheEnd(s, i)) : escByte(s, i) + escTextFrom(s, i + 1))
+
 //@ func escapeText(s) (r)
+//@   loop 0 use escStep(s, i)
 //@   modifies nothing
 //@   ensures C19.text.escaped: r == escTextFrom(s, 0)
 //@   loop 0 invariant bounds: 0 <= i && i <= len(s)
